@@ -19,11 +19,20 @@ emit the specified sequence by itself (per-subscription state: range's iterator,
 `first`/`state`, the iterable's iterator).  generate conditions hand back non-bool verdicts
 of the same truthiness (1/0, "x"/"", "x"/None, [0]/[]) while the Gallina table stays boolean;
 throw("text") / rx.just and falsy payloads (None, 0, False, "", (), 0.0) for of / from_iterable
-/ return_value / repeat_value are generated too (payloads are interned to ids for Coq)."""
+/ return_value / repeat_value are generated too (payloads are interned to ids for Coq).
+
+Oracle-only family `calls` (harness/c37_calls.py): generate / generate_with_relative_time (bare, or wrapped in
+rx.defer / rx.create) with call-recording PARTIAL callbacks (dict / list lookups, a division, assertions --
+defined only where the while-loop calls them: iterate and time_mapper only on states that pass the condition)
+and callbacks with side effects (call counters, queues popped per call, a condition reading the number of
+elements delivered so far); the recorded sequence of (callback, argument) calls interleaved with the
+notifications must be the one of the literal while-loop run on a fresh copy of the callbacks."""
 import datetime as dt
 import itertools
 import json
+import random
 
+import c37_calls
 import k2
 import k2m
 import lib
@@ -659,6 +668,7 @@ def run(chk):
             elif len(em) >= 2:
                 nontrivial.add(f"{res['coq']}|{gi}")
             cases.append((f"({res['coq']}, {gi})", gt))
+    calls_hist = run_calls_family(chk)
     prelude = "Definition model (c : machine Z Z * list (Z * inp Z)) := run_canon (fst c) (snd c).\n"
     bad, logs = lib.correspondence("C37", "m", IMPORTS, "(machine Z Z * list (Z * inp Z)) * list (nat * obs Z)",
                                    "model", "(trace_eqb Z.eqb)", cases, prelude=prelude)
@@ -684,22 +694,81 @@ def run(chk):
                        "0.0,1,2,'a',7] (ids in Coq); throw(UserError) or throw('text').  Oracle only: every case "
                        "additionally with ONE observable object subscribed twice -- sequentially (second "
                        "subscription after the first ended / was disposed) and overlapping (both before any firing; "
-                       "the first disposes as the case says) -- each subscription must satisfy the oracle by itself")
-    chk.cov["input_distribution"] = {"per_factory": per, **hist}
+                       "the first disposes as the case says) -- each subscription must satisfy the oracle by itself.  "
+                       "Oracle only, family `calls` (own random stream): generate / generate_with_relative_time with "
+                       "0-6 passing states (ints 0..k or payloads from [None,0,'',(),'a',(1,2),2.5,-3,'zz',7,"
+                       "frozenset(),'0']), call-recording callbacks -- condition: dict / assert+dict over the visited "
+                       "states, call counter, s<k, 'elements delivered so far < k'; iterate: dict / list over the "
+                       "PASSING states only, queue pop, s+1; time_mapper: list / dict / assert+dict over the passing "
+                       "states only, queue pop, 10*(12//(k-s)), constant; delays in {0,5,10,20,35,1000} ms as float/"
+                       "timedelta/int -- optional fault (j-th call of one callback raises, 20%), dispose after 0..k+1 "
+                       "firings (15%) / inside the j-th on_next (15%), second subscription of the same object (20%), "
+                       "wrapped in rx.defer / rx.create (30%; factory / subscribe function called once per "
+                       "subscription with its scheduler, first); the log of (callback, argument) calls interleaved "
+                       "with the notifications must equal (disposed: be a prefix of) the log of the literal loop "
+                       "`s=init; while cond(s): [wait tm(s)]; emit s; s=iter(s)` on a fresh copy of the callbacks, "
+                       "errors by type and args, notification instants = accumulated delays; runs: proxy scheduler, "
+                       "default trampoline (generate), TestScheduler (generate_with_relative_time)")
+    chk.cov["input_distribution"] = {"per_factory": per, **hist, "calls_family": calls_hist}
     short = [c for c in cases if len(c[0]) + len(c[1]) < 700]
     chk.add_samples([{"case": c[0], "trace": c[1]} for c in short[:: max(1, len(short) // 6)]][:6])
     return chk.finish(
         trusted_extra=["proxy scheduler and boundary log of harness/k2m.py; the timer-firing driver, spy iterable and "
-                       "finite callback tables of harness/props/C37.py",
+                       "finite callback tables of harness/props/C37.py; the recording callbacks, reference while-loop "
+                       "and drivers of harness/c37_calls.py",
                        "CPython's range() as the oracle for range"],
         assumptions=["time is the proxy scheduler's virtual clock in integer milliseconds: timers fire exactly when due, "
                      "in due order (ties: scheduling order); real TimeoutScheduler threads are not exercised",
                      "negative delays / due times in the past are only generated for timer(d) without period"])
 
 
+def run_calls_family(chk):
+    """oracle-only: call-recording partial / side-effecting callbacks against the literal while-loop"""
+    xr = random.Random(f"C37-calls-{chk.seed}")         # own stream: the table cases above stay what they were
+    n = 400 if chk.tier == "quick" and not chk.broken else 6000
+    hist = {"cases": 0, "full_run": 0, "disposed_midway": 0, "resubscribed": 0, "wrapped_defer": 0, "wrapped_create": 0,
+            "fault_injected": 0, "ended_with_error": 0, "ended_with_lookup_error_in_loop": 0, "initially_false": 0,
+            "stateful_callback": 0, "partial_time_mapper": 0, "partial_iterate": 0, "non_int_states": 0,
+            "emitted": 0, "callback_calls": 0, "per_factory": {}}
+    for name in c37_calls.NAMES:
+        for _ in range(n):
+            case = c37_calls.gen_case(xr, name)
+            v, st = c37_calls.check_case(case)
+            chk.cov["evaluations"] += 1
+            hist["cases"] += 1
+            hist["per_factory"][name] = hist["per_factory"].get(name, 0) + 1
+            for k_, x in st.items():
+                if k_ in hist:
+                    hist[k_] += int(x)
+            hist["disposed_midway"] += not st.get("full_run", True)
+            hist["resubscribed"] += case["twice"]
+            hist["wrapped_defer"] += case["wrap"] == "defer"
+            hist["wrapped_create"] += case["wrap"] == "create"
+            hist["fault_injected"] += case["fault"] is not None
+            hist["initially_false"] += case["k"] == 0
+            hist["stateful_callback"] += (case["cond"] in ("count", "emitted") or case["iter"] == "pop"
+                                          or case.get("tm") == "pop")
+            hist["partial_time_mapper"] += case.get("tm") in ("list", "dict", "div", "assert", "pop")
+            hist["partial_iterate"] += case["iter"] in ("dict", "list", "pop")
+            hist["non_int_states"] += not case["ints"]
+            if v:
+                chk.violation(c37_calls.signature(case, v), {"case": case, "what": v[1]}, size=c37_calls.size(case))
+    return hist
+
+
 def replay(chk, path):
     d = json.load(open(path))
     case = d["case"]
+    if case.get("family") == "calls":
+        v, _ = c37_calls.check_case(case)
+        ref = c37_calls.Callbacks(case)
+        c37_calls.reference(ref, case["name"] == "generate_with_relative_time", 2 if case["twice"] else 1, case.get("wrap"))
+        print(json.dumps({"case": case, "while-loop (calls and notifications)": c37_calls.show(ref.log),
+                          "oracle": v[1] if v else "holds"}, indent=1))
+        if v:
+            print(f"VIOLATION property=C37 replay={path}")
+            return 1
+        return 0
     res = run_case(case)
     if d.get("resubscribe"):
         v = oracle_shared(case, d["resubscribe"])
